@@ -23,7 +23,8 @@ Definition prf_tbl (tb : tagtbl) (t i : N) : bytes :=
   end.
 
 (* observables *)
-Record snapshot := mkSnap { sn_views : list (N * list N); sn_resp : list N; sn_pending : N; sn_myview : list N }.
+Record snapshot := mkSnap { sn_views : list (N * list N); sn_resp : list N; sn_pending : N; sn_myview : list N;
+                            sn_queried : list N; sn_pendq : N }.
 Record async := mkAsync { as_tick : option bytes; as_query : option bytes; as_cont : option (list N); as_ret : N }.
 
 Inductive dop :=
@@ -31,14 +32,14 @@ Inductive dop :=
 | OFreeze
 | OPass2 (iv : list N)
 | OPass (iv : list N)
-| ODrain (rs : list (list N))
+| ODrain (rs qs : list (list N))
 | OStart (sn : snapshot) (asy : async)
 | OCancel (asy : async).
 
 Record dscen := mkDScen { d_self : N; d_members : list N; d_expected : nat; d_sync : bool;
                           d_tags : tagtbl; d_ops : list dop }.
 
-Definition scen_cfg (s : dscen) : cfg := mkCfg (d_self s) 0 (d_members s) (d_expected s) true true.
+Definition scen_cfg (s : dscen) : cfg := mkCfg (d_self s) 0 (d_members s) (d_expected s) true true true.
 
 (* ---- projections of the model ---- *)
 Fixpoint ins_kv (kv : N * view) (l : list (N * view)) : list (N * view) :=
@@ -49,12 +50,17 @@ Fixpoint ins_kv (kv : N * view) (l : list (N * view)) : list (N * view) :=
 Definition sort_views (l : list (N * view)) : list (N * view) := fold_right ins_kv [] l.
 
 Definition snap_of (c : cfg) (st : state) : snapshot :=
-  mkSnap (sort_views (views st)) (isort (responded st)) (N.of_nat (length (chan st))) (my_view c st).
+  mkSnap (sort_views (views st)) (isort (responded st)) (N.of_nat (length (chan st))) (my_view c st)
+         (isort (queried st)) (N.of_nat (length (qchan st))).
 
 Definition kv_eqb (a b : N * view) : bool := (fst a =? fst b) && nl_eqb (snd a) (snd b).
-Definition snap_eqb (a b : snapshot) : bool :=
+(* [pend]: compare the lengths of the two channels.  Once Synchronize has returned nobody reads them any more, and
+   what its last select left in them depends on which ready channel the Go runtime picked: not compared then. *)
+Definition snap_eqb (pend : bool) (a b : snapshot) : bool :=
   list_eqb kv_eqb (sn_views a) (sn_views b) && nl_eqb (sn_resp a) (sn_resp b) &&
-  (sn_pending a =? sn_pending b) && nl_eqb (sn_myview a) (sn_myview b).
+  nl_eqb (sn_myview a) (sn_myview b) && nl_eqb (sn_queried a) (sn_queried b) &&
+  (negb pend || ((sn_pending a =? sn_pending b) && (sn_pendq a =? sn_pendq b))).
+Definition running (st : state) : bool := match ph st with Collect | Query _ _ _ => true | _ => false end.
 
 Definition opt_eqb {A} (eqb : A -> A -> bool) (a b : option A) : bool :=
   match a, b with Some x, Some y => eqb x y | None, None => true | _, _ => false end.
@@ -73,7 +79,8 @@ Definition send_eqb (a b : N * bytes) : bool := (fst a =? fst b) && bytes_eqb (s
 Definition settle (c : cfg) (st : state) : state * list output :=
   let '(st1, o1) := match ph st with Collect => lrun c st (full_pass st) | _ => (st, []) end in
   let '(st2, o2) := lrun c st1 (repeat TakeResponse (length (chan st1))) in
-  (st2, o1 ++ o2).
+  let '(st3, o3) := lrun c st2 (repeat TakeQuery (length (qchan st2))) in
+  (st3, o1 ++ o2 ++ o3).
 
 Definition first_query (tb : tagtbl) (c : cfg) (o : list output) : option bytes :=
   match flat_map (fun x => match x with Bcast MQuery _ => [enc tb c x] | _ => [] end) o with
@@ -85,8 +92,13 @@ Definition first_cont (o : list output) : option (list N) :=
   | l :: _ => Some l
   | [] => None
   end.
-Definition has_err (o : list output) : bool :=
-  existsb (fun x => match x with Return_err => true | _ => false end) o.
+(* return class: 0 none, 1 nil, 2.. the error returns *)
+Definition err_code (e : errc) : N := match e with ECollect => 2 | ETooMany => 3 | EAcks => 4 | EQueries => 5 end.
+Definition first_err (o : list output) : option N :=
+  match flat_map (fun x => match x with Return_err e => [err_code e] | _ => [] end) o with
+  | e :: _ => Some e
+  | [] => None
+  end.
 Definition n_conts (o : list output) : nat :=
   length (flat_map (fun x => match x with Continue L => [L] | _ => [] end) o).
 
@@ -94,7 +106,7 @@ Definition n_conts (o : list output) : nat :=
 Definition async_of (tb : tagtbl) (c : cfg) (st : state) (o : list output) : async :=
   mkAsync (match ph st with Collect => Some (enc tb c (Bcast MMember (my_view c st))) | _ => None end)
           (first_query tb c o) (first_cont o)
-          (if has_err o then 2 else match first_cont o with Some _ => 1 | None => 0 end).
+          (match first_err o with Some e => e | None => match first_cont o with Some _ => 1 | None => 0 end end).
 
 Definition no_async : async := mkAsync None None None 0.
 
@@ -106,23 +118,23 @@ Definition run_op (s : dscen) (st : state) (fz : list (N * view)) (op : dop) : o
   | OHandle from data sends sn asy =>
       let '(st1, o1) := handle_bytes (prf_tbl tb) c st from data in
       let '(st2, o2) := if d_sync s then settle c st1 else (st1, []) in
-      if list_eqb send_eqb (sends_of tb c o1) sends && snap_eqb (snap_of c st2) sn &&
+      if list_eqb send_eqb (sends_of tb c o1) sends && snap_eqb (negb (d_sync s) || running st2) (snap_of c st2) sn &&
          async_eqb (if d_sync s then async_of tb c st2 o2 else no_async) asy &&
          Nat.leb (n_conts o2) 1
       then Some (st2, fz) else None
   | OFreeze => Some (st, views st)
   | OPass2 iv => if nl_eqb (intersected c fz (keys (views st))) iv then Some (st, fz) else None
   | OPass iv => if nl_eqb (intersected c (views st) (keys (views st))) iv then Some (st, fz) else None
-  | ODrain rs =>
-      if list_eqb nl_eqb (chan st) rs
-      then Some (mkSt (views st) (responded st) [] (pass st) (ph st), fz) else None
+  | ODrain rs qs =>
+      if list_eqb nl_eqb (chan st) rs && list_eqb nl_eqb (map snd (qchan st)) qs
+      then Some (mkSt (views st) (responded st) [] (queried st) [] (qacc st) (stopped st) (pass st) (ph st), fz) else None
   | OStart sn asy =>
       let '(st2, o2) := settle c st in
-      if snap_eqb (snap_of c st2) sn && async_eqb (async_of tb c st2 o2) asy then Some (st2, fz) else None
+      if snap_eqb (running st2) (snap_of c st2) sn && async_eqb (async_of tb c st2 o2) asy then Some (st2, fz) else None
   | OCancel asy =>
       let '(st2, o2) := step c st CtxDone in
       if async_eqb (mkAsync None None (first_cont o2)
-                      (if has_err o2 then 2 else 0)) asy
+                      (match first_err o2 with Some e => e | None => 0 end)) asy
       then Some (st2, fz) else None
   end.
 
